@@ -77,12 +77,23 @@ package main
 //@   ensures forall a int :: 0 <= a && a < len(result) ==> !has(q.items, result[a])
 //@   ensures forall m int :: 0 <= m && m < len(ids) && !has(q.items, ids[m]) ==> (exists a int :: 0 <= a && a < len(result) && result[a] == ids[m])
 
-// SetIndexed: the repository is known afterwards with the reported state; a
-// failed repository is off the heap; the invariant survives.
+// SetIndexed: reporting the outcome of a job never changes WHICH repositories
+// the queue tracks (a repository that was removed while its job ran is not
+// brought back); a tracked repository carries the reported state afterwards, a
+// failed one is off the heap; the invariant survives.
 //@ func main.(*Queue).SetIndexed
-//@   requires q != nil && okQueue(q) && q.newQueueItem != nil
-//@   ensures okQueue(q) && has(q.items, opts.RepoID) && q.items[opts.RepoID].indexState == state
-//@   ensures state == indexStateFail ==> q.items[opts.RepoID].heapIdx < 0
+//@   requires q != nil && okQueue(q)
+//@   ensures okQueue(q)
+//@   ensures forall k uint32 :: has(q.items, k) == old(has(q.items, k))
+//@   ensures has(q.items, opts.RepoID) ==> q.items[opts.RepoID].indexState == state
+//@   ensures has(q.items, opts.RepoID) && state == indexStateFail ==> q.items[opts.RepoID].heapIdx < 0
+
+// get: the tracked item of that id, or nil.
+//@ func main.(*Queue).get
+//@   requires q != nil && okQueue(q)
+//@   ensures has(q.items, repoID) ==> result == q.items[repoID] && result != nil
+//@   ensures !has(q.items, repoID) ==> result == nil
+//@   assigns nothing
 
 // The documented priority as one formula, and the facts container/heap needs
 // of it: a strict weak order (irreflexive, transitive, incomparability
